@@ -259,9 +259,9 @@ impl ScalingPoints {
     fn nhist(&self) -> u64 {
         // identity scaling exists only for symmetric cones
         if self.cones.iter().all(|c| matches!(c, ConeSpec::Zero(_) | ConeSpec::NN(_) | ConeSpec::SOC(_) | ConeSpec::PSD(_))) {
-            6
+            7
         } else {
-            3
+            4
         }
     }
     /// history of scaling operations applied to the same (cones, kkt) pair; the last one is judged
@@ -269,10 +269,15 @@ impl ScalingPoints {
         let h = id / (self.npts() * self.npts() * 3);
         let a = self.points_at(id, false);
         let b = self.points_at(id, true);
+        // mu < 0 marks the "poisoned" update: a degenerate scaling point (s = z = 0) whose factorisation
+        // fails inside the real solver; the next regular update on the same objects must leave no trace of it
+        let poison = (vec![0.0; a.0.len()], vec![0.0; a.1.len()], -1.0);
+        let last = self.nhist() - 1;
         match h {
             0 => vec![Some(a)],
             1 => vec![Some(b), Some(a)],
             2 => vec![Some(a.clone()), Some(b), Some(a)],
+            x if x == last => vec![Some(a.clone()), Some(poison), Some(a)],
             3 => vec![None],
             4 => vec![Some(a), None],
             _ => vec![Some(b), None, Some(a)],
@@ -324,11 +329,11 @@ impl Space for ScalingPoints {
     }
     fn describe(&self, id: u64) -> Value {
         let (s, z, mu) = self.points(id);
-        let hist: Vec<Value> = self.history(id).iter().map(|o| match o { None => json!("set_identity_scaling"), Some((s, z, mu)) => json!({"update_scaling": {"s": s, "z": z, "mu": mu}}) }).collect();
+        let hist: Vec<Value> = self.history(id).iter().map(|o| match o { None => json!("set_identity_scaling"), Some((_, _, mu)) if *mu < 0.0 => json!("update_scaling at s = z = 0 (factorisation expected to fail)"), Some((s, z, mu)) => json!({"update_scaling": {"s": s, "z": z, "mu": mu}}) }).collect();
         json!({"cones": self.cones.iter().map(|c| c.tag()).collect::<Vec<_>>(), "s": s, "z": z, "mu": mu, "static_regularization": self.static_reg, "history": hist})
     }
     fn bound(&self) -> Value {
-        json!({"points_per_side": self.npts(), "mu": [1.0,1e-4,1e2], "histories": "U(a) | U(b)U(a) | U(a)U(b)U(a) | Id | U(a)Id | U(b)IdU(a) on one (cones, kkt solver) pair, kkt.update after every operation, last state judged"})
+        json!({"points_per_side": self.npts(), "mu": [1.0,1e-4,1e2], "histories": "U(a) | U(b)U(a) | U(a)U(b)U(a) | U(a)XU(a) (X = degenerate point whose factorisation fails) | Id | U(a)Id | U(b)IdU(a) on one (cones, kkt solver) pair, kkt.update after every operation, last state judged"})
     }
     fn run(&self, id: u64, ctx: &mut Ctx) -> CaseResult {
         let hist = self.history(id);
@@ -356,6 +361,14 @@ impl Space for ScalingPoints {
             match op {
                 None => {
                     guarded(|| cones.set_identity_scaling()).map_err(|e| Violation::new("set_identity_scaling-panics", e))?;
+                }
+                Some((s, z, mu)) if *mu < 0.0 => {
+                    // degenerate point: whatever the cones make of it (rejection, NaN scaling, panic), the KKT
+                    // update that follows may fail but must not damage the solver object
+                    let _ = guarded(|| cones.update_scaling(s, z, 1.0, strategy));
+                    let _ = guarded(|| kkt.update(&cones, &st));
+                    ctx.transitions += 2;
+                    continue;
                 }
                 Some((s, z, mu)) => {
                     // nonsymmetric lattice points can sit on the boundary (theta = 1-1e-6 is interior; theta handled by predicates)
